@@ -70,6 +70,12 @@ func mk(op string, sort Sort, name string, iv *big.Int, bv bool, args ...*Term) 
 	if t, ok := termTab[k]; ok {
 		return t
 	}
+	// Hash-consing is an optimisation only (structural sharing, cheap equality shortcuts). Most
+	// terms mention per-path fresh variables and are never looked up again, so the table is
+	// dropped when it grows large; term ids stay unique.
+	if len(termTab) > 1500000 {
+		termTab = make(map[string]*Term, 1<<16)
+	}
 	termCount++
 	t := &Term{op: op, args: args, sort: sort, iv: iv, bv: bv, name: name, id: termCount}
 	termTab[k] = t
